@@ -135,6 +135,12 @@ func c19Serve(preset string, f func(c *rux.Context)) (*httptest.ResponseRecorder
 		r.Use(func(c *rux.Context) { c.SetStatus(500) })
 	}
 	// ... or may have recorded an error (no OnError hook is installed): the helper's response is not affected
+	direct := false
+	if strings.HasPrefix(preset, "direct|") {
+		// the request is dispatched by Router.HandleContext on a context the caller built itself
+		preset = strings.TrimPrefix(preset, "direct|")
+		direct = true
+	}
 	if strings.HasPrefix(preset, "erred|") {
 		preset = strings.TrimPrefix(preset, "erred|")
 		r.Use(func(c *rux.Context) { c.AddError(errors.New("recorded by an earlier middleware")) })
@@ -150,7 +156,15 @@ func c19Serve(preset string, f func(c *rux.Context)) (*httptest.ResponseRecorder
 	w := httptest.NewRecorder()
 	req := httptest.NewRequest("GET", "/x", nil)
 	req.Header.Set("Referer", "/back")
-	pv := try(func() { r.ServeHTTP(w, req) })
+	pv := try(func() {
+		if direct {
+			ctx := &rux.Context{}
+			ctx.Init(w, req)
+			r.HandleContext(ctx)
+			return
+		}
+		r.ServeHTTP(w, req)
+	})
 	return w, errs, pv
 }
 
@@ -269,7 +283,7 @@ func c19Run(c c19Case, st *fw.Stats) []fw.Viol {
 			switch c.Helper {
 			case "Text", "HTML", "JSONBytes", "Blob", "Stream":
 				for _, s := range c19Strings {
-					for _, preset := range []string{"", "x/custom", "status500|", "erred|"} {
+					for _, preset := range []string{"", "x/custom", "status500|", "erred|", "direct|"} {
 						s, status := s, status
 						ct := map[string]string{"Text": "text/plain; charset=utf-8", "HTML": "text/html; charset=utf-8", "JSONBytes": "application/json; charset=utf-8", "Blob": "app/blob", "Stream": "app/stream"}[c.Helper]
 						w, _, pv := c19Serve(preset, func(ctx *rux.Context) {
@@ -391,7 +405,7 @@ func c19Run(c c19Case, st *fw.Stats) []fw.Viol {
 				}
 			case "JSON", "JSONP", "XML":
 				for _, v := range c19Values() {
-					for _, preset := range []string{"", "x/custom", "status500|", "erred|"} {
+					for _, preset := range []string{"", "x/custom", "status500|", "erred|", "direct|"} {
 						v, status := v, status
 						// the callback name is emitted as given
 						cbName := c19Callbacks[(status/100+len(preset))%len(c19Callbacks)]
@@ -401,7 +415,7 @@ func c19Run(c c19Case, st *fw.Stats) []fw.Viol {
 							continue
 						}
 						ct := map[string]string{"JSON": "application/json; charset=utf-8", "JSONP": "application/javascript; charset=utf-8", "XML": "application/xml; charset=utf-8"}[c.Helper]
-						if preset != "" && preset != "status500|" && preset != "erred|" {
+						if preset != "" && preset != "status500|" && preset != "erred|" && preset != "direct|" {
 							ct = preset // the renderers never override a Content-Type that is already set
 						}
 						w, errs, pv := c19Serve(preset, func(ctx *rux.Context) {
@@ -477,7 +491,7 @@ func c19Run(c c19Case, st *fw.Stats) []fw.Viol {
 					}
 				}
 			case "NoContent":
-				for _, preset := range []string{"", "status500|", "erred|"} {
+				for _, preset := range []string{"", "status500|", "erred|", "direct|"} {
 					w, _, pv := c19Serve(preset, func(ctx *rux.Context) { ctx.NoContent() })
 					check(fmt.Sprintf("NoContent() preset %q", preset), w, pv, 204, "*", func(b []byte) bool { return len(b) == 0 })
 				}
@@ -597,6 +611,27 @@ func c19Run(c c19Case, st *fw.Stats) []fw.Viol {
 			}
 		}
 	case "negotiate":
+		if c.First == 0 {
+			// the first supported type listed answers even when the value cannot be encoded in it: the failure is returned
+			// (nothing falls through to a later entry of the list)
+			for _, tc := range []struct {
+				accept string
+				val    any
+			}{{"application/xml, application/json", map[string]int{"a": 1}}, {"text/xml,application/json", map[string]int{"a": 1}}, {"application/json, application/xml", math.NaN()},
+				{"foo/bar, application/json, text/plain", make(chan int)}, {"application/json;q=0.9, application/xml", math.Inf(1)}} {
+				st.Evals++
+				st.Nontrivial++
+				w := httptest.NewRecorder()
+				req := httptest.NewRequest("GET", "/x", nil)
+				req.Header.Set("Accept", tc.accept)
+				var err error
+				if pv := try(func() { err = render.Auto(w, req, tc.val) }); pv != nil {
+					add("negotiate:panic", fmt.Sprintf("render.Auto(%T) with Accept %q panicked: %v", tc.val, tc.accept, pv))
+				} else if err == nil {
+					add("negotiate:first-supported", fmt.Sprintf("render.Auto with Accept %q and a value (%T) that the first supported type listed cannot encode: no error was returned (Content-Type %q, body %q)", tc.accept, tc.val, w.Header().Get("Content-Type"), trunc(w.Body.String())))
+				}
+			}
+		}
 		supported := map[string]string{"application/json": "json", "text/html": "html", "text/plain": "text", "application/xml": "xml", "text/xml": "xml"}
 		val := c19XML{ID: 3, Name: "n"}
 		var rec func(list []string)
@@ -674,7 +709,7 @@ func c19Run(c c19Case, st *fw.Stats) []fw.Viol {
 var c19Spec = fw.Spec[c19Case]{
 	ID:    "C19",
 	Level: "model_checking",
-	Rule: "complete product: every helper on the context of a handler used directly as http.Handler; every helper alone on a fresh router after every ordered pair of 13 helper calls built one earlier response (differential against the pristine process); 11 context helpers x 8 status codes x value alphabets (7 strings with HTML / unicode / control characters; maps, structs, pointers, byte and int slices, scalars; unencodable chan / func / NaN / Inf / cyclic values / invalid json.RawMessage; json.RawMessage values incl. nil; two helper failures in one request with the same or with uncomparable error values; for Stream also 5 reader shapes and 5 sized readers that were partly read before - the rest is streamed and an announced Content-Length equals it) x preset Content-Type absent / present (HTTPError answers text/plain whatever was set before) x another status already selected by an earlier handler / an error already recorded by an earlier middleware (no OnError hook); 11 pkg/render functions x 3 preset Content-Types; render.Auto x ALL Accept lists of <=3 (thorough 4) entries over 10 entries (the five supported MIME strings, foo/bar, */*, q-parameters, empty); " +
+	Rule: "complete product: every helper on the context of a handler used directly as http.Handler; every helper alone on a fresh router after every ordered pair of 13 helper calls built one earlier response (differential against the pristine process); 11 context helpers x 8 status codes x value alphabets (7 strings with HTML / unicode / control characters; maps, structs, pointers, byte and int slices, scalars; unencodable chan / func / NaN / Inf / cyclic values / invalid json.RawMessage; json.RawMessage values incl. nil; two helper failures in one request with the same or with uncomparable error values; for Stream also 5 reader shapes and 5 sized readers that were partly read before - the rest is streamed and an announced Content-Length equals it) x preset Content-Type absent / present (HTTPError answers text/plain whatever was set before) x another status already selected by an earlier handler / an error already recorded by an earlier middleware (no OnError hook) / the request dispatched by HandleContext on a caller-owned context; 11 pkg/render functions x 3 preset Content-Types; render.Auto x ALL Accept lists of <=3 (thorough 4) entries over 10 entries (the five supported MIME strings, foo/bar, */*, q-parameters, empty) and 5 lists whose first supported type cannot encode the value (the failure is returned); " +
 		"oracle: recorded status, documented Content-Type (preset preserved by every pkg/render renderer), body decodes back (JSONP unwrapped), first supported entry wins, encoding failures land in Context.Errors / the returned error; every evaluation is non-trivial except single-entry Accept lists",
 	Assume: []string{"text/html negotiation is the code's documented no-op and is modelled as such", "XML round trips use one struct type; encoding/xml has no cycle detection so cyclic values are not offered to it"},
 	Bounds: func(tier string) map[string]any {
